@@ -270,7 +270,11 @@ func (o *OAuth2) End(w http.ResponseWriter, r *http.Request) error {
 				r = r.WithContext(context.WithValue(r.Context(), authboss.CTXKeyValues, RMTrue{}))
 			}
 		case FormValueOAuth2Redir:
-			redirect = v
+			// the parameter was supplied by the client when the flow started:
+			// only honour it if it is a path on this site
+			if isLocalRedirect(v) {
+				redirect = v
+			}
 		default:
 			query.Set(k, v)
 		}
@@ -293,6 +297,21 @@ func (o *OAuth2) End(w http.ResponseWriter, r *http.Request) error {
 		Success:      o.Localizef(r.Context(), authboss.TxtOAuth2LoginOK, provider),
 	}
 	return o.Authboss.Config.Core.Redirector.Redirect(w, r, ro)
+}
+
+// isLocalRedirect reports whether a client supplied redirect target is a rooted
+// path on this site: not scheme-relative ("//host", "/\\host") and free of
+// backslashes and control characters, which browsers reinterpret.
+func isLocalRedirect(redir string) bool {
+	if len(redir) == 0 || redir[0] != '/' {
+		return false
+	}
+	for i := 0; i < len(redir); i++ {
+		if c := redir[i]; c == '\\' || c < 0x20 || c == 0x7f {
+			return false
+		}
+	}
+	return len(redir) == 1 || redir[1] != '/'
 }
 
 // RMTrue is a dummy struct implementing authboss.RememberValuer
